@@ -1,6 +1,7 @@
 /-
   C15 — Title comes from the page, is never invented, and is not repeated in content.
 -/
+import Distill.Props.RenderProps
 import Distill.Model.Title
 import Distill.Props.FiltersProps
 import Distill.Gen.Funcs
